@@ -160,7 +160,7 @@ impl<'b, T: El + PartialEq, S: SEl> Env<'b, T, S> {
         if T::KIND == 'Z' && matches!(name, "resize" | "vmacro_n") && op.n > (1 << 16) {
             return SKIP; // would loop for ever on both sides
         }
-        if T::KIND != 'C' && matches!(name, "extend_copy" | "extend_slices") {
+        if T::KIND != 'C' && matches!(name, "extend_copy" | "extend_refs" | "extend_slices") {
             return SKIP;
         }
         let ipanic = Self::pk(op, Pk::Iter);
@@ -253,6 +253,11 @@ impl<'b, T: El + PartialEq, S: SEl> Env<'b, T, S> {
             }
             "extend_copy" => {
                 T::extend_copy(self.bv[v].as_mut().unwrap(), &src[0]);
+                "ok"
+            }
+            "extend_refs" => {
+                // `Extend<&'a T> for Vec<T>` (`T: Copy`)
+                T::extend_refs(self.bv[v].as_mut().unwrap(), &src[0]);
                 "ok"
             }
             "extend_slices" => {
@@ -522,7 +527,7 @@ impl<'b, T: El + PartialEq, S: SEl> Env<'b, T, S> {
                 self.sv[v].as_mut().unwrap().extend(it);
                 "ok"
             }
-            "extend_from_slice" | "extend_copy" => {
+            "extend_from_slice" | "extend_copy" | "extend_refs" => {
                 self.sv[v].as_mut().unwrap().extend_from_slice(&mk(&op.xs));
                 "ok"
             }
@@ -836,7 +841,7 @@ pub fn run_plan<T: El + PartialEq, S: SEl>(plan: &mut Plan, gen: Option<(Profile
                 "push" | "insert" | "resize" | "vmacro_n" => args.push(T::mk(op.x)),
                 "extend" | "splice" | "from_iter" | "collect_in" => args = op.xs.iter().map(|x| T::mk(*x)).collect(),
                 "vmacro_list" => args = op.xs.iter().take(6).map(|x| T::mk(*x)).collect(),
-                "extend_from_slice" | "extend_copy" => src.push(op.xs.iter().map(|x| T::mk(*x)).collect()),
+                "extend_from_slice" | "extend_copy" | "extend_refs" => src.push(op.xs.iter().map(|x| T::mk(*x)).collect()),
                 "extend_slices" => {
                     for xs in &op.xss {
                         src.push(xs.iter().map(|x| T::mk(*x)).collect());
@@ -937,7 +942,7 @@ pub fn run_plan<T: El + PartialEq, S: SEl>(plan: &mut Plan, gen: Option<(Profile
             }
             // C13: a promise made by `reserve` / `with_capacity_in` stays good: no method other than the shrinking ones gives capacity
             // back (std's `Vec` never does), neither of the receiver nor of the other vector of `append`
-            if matches!(name, "push" | "pop" | "insert" | "remove" | "swap_remove" | "truncate" | "clear" | "extend" | "extend_from_slice" | "extend_copy"
+            if matches!(name, "push" | "pop" | "insert" | "remove" | "swap_remove" | "truncate" | "clear" | "extend" | "extend_from_slice" | "extend_copy" | "extend_refs"
                 | "extend_slices" | "append" | "resize" | "reserve" | "reserve_exact" | "try_reserve" | "try_reserve_exact" | "retain" | "dedup"
                 | "dedup_by" | "dedup_by_key")
             {
@@ -954,7 +959,7 @@ pub fn run_plan<T: El + PartialEq, S: SEl>(plan: &mut Plan, gen: Option<(Profile
             }
             // C18 (Vec part): amortised growth — when one of the growing methods has to enlarge the buffer the
             // new capacity is at least twice the old one (RawVec: max(2*cap, required)); reserve_exact is exempt
-            if matches!(name, "push" | "insert" | "extend" | "extend_from_slice" | "extend_copy" | "extend_slices" | "append"
+            if matches!(name, "push" | "insert" | "extend" | "extend_from_slice" | "extend_copy" | "extend_refs" | "extend_slices" | "append"
                 | "resize" | "reserve" | "try_reserve") && kind != 'Z'
             {
                 if let (Some(Some(c0)), Some(Some(b))) = (pre_caps.get(op.v), env.bv.get(op.v).map(|b| b.as_ref())) {
